@@ -137,7 +137,7 @@ def rule_vec_forms(ctx, f, rid):
                            "%s::%s applies `%s` to the cache of locals: entries (and the un-flushed data they hold) may leave the cache only through remove_label_values, "
                            "and enter it only through entry() in with_label_values" % (ty, fn, meth), site=c.span)
         if ty == "GenericLocalCounterVec":
-            ctx.floor(rid, "uses of %s.local" % ty, n_uses, 3)
+            ctx.floor(rid, "uses of %s.local" % ty, n_uses, 2)
         b = ctx.anchor(rid, ty + "::flush", f.body(path + "flush"))
         if b:
             ctx.saw(b)
